@@ -289,6 +289,10 @@ def line_schedules(task):
     try:
         tree = ceos_alos2.open_alos2(url, backend_options=dict(use_cache=False, records_per_chunk=4))
         das = [tree[f"imagery/{im['group']}/data"] for im in b.images]
+        import pickle as _pickle
+
+        tree_p = _pickle.loads(_pickle.dumps(tree))   # which = 2 / 3: T2 loads the same / the other image through a pickled copy of the tree
+        das += [tree_p[f"imagery/{im['group']}/data"] for im in b.images]
         # H distinct windows of HH: single lines first, then 2-line, 3-line ... windows
         wins = [(a, a + w) for w in range(1, 6) for a in range(0, n_ - w + 1)][:task["H"]]
         fresh = iter([(a, a + w) for w in range(7, 40) for a in range(0, n_ - w + 1)])
@@ -324,7 +328,7 @@ def line_schedules(task):
         def t2_body(which, win, res):
             rows = list(range(*win))
             try:
-                res["T2"] = oracle.pixels_match(das[which].isel(rows=slice(*win)).values, b.images[which], rows=rows)
+                res["T2"] = oracle.pixels_match(das[which].isel(rows=slice(*win)).values, b.images[which % 2], rows=rows)
             except BaseException as e:  # noqa: B902
                 res["T2"] = f"raised {type(e).__name__}: {str(e)[:100]}"
 
@@ -355,19 +359,19 @@ def line_schedules(task):
                     return out
                 t2 = threading.Thread(target=t2_body, args=(which, win, res), daemon=True)
                 t2.start()
-                t2.join(0.15 if which == 0 else 20)   # (same image: T2 may legitimately wait for T1's lock)
+                t2.join(0.15 if which % 2 == 0 else 20)   # (same image, also through the pickled copy: T2 may legitimately wait for T1's lock)
                 gate.set()
                 t1.join(120)
                 t2.join(120)
                 out["n"] += 1
                 if t1.is_alive() or t2.is_alive():
-                    out["bad"].append(("line-grain:deadlock", f"history {task['H']}, T1 parked before its package line {k}/{total}, T2 = {b.images[which]['group']}{list(win)}: did not complete within 120 s"))
+                    out["bad"].append(("line-grain:deadlock", f"history {task['H']}, T1 parked before its package line {k}/{total}, T2 = {b.images[which % 2]['group']}{list(win)}{' (pickled copy)' if which > 1 else ''}: did not complete within 120 s"))
                     return out
                 for who in ("T1", "T2"):
                     if res.get(who):
-                        out["bad"].append((f"line-grain:{who}:{'other' if which else 'same'}-image",
+                        out["bad"].append((f"line-grain:{who}:{'other' if which % 2 else 'same'}-image{'-pickled' if which > 1 else ''}",
                                            f"history of {task['H']} selections; T1 re-loads HH{list(wins[0])} and is parked before its package line {k}/{total}; T2 loads "
-                                           f"{b.images[which]['group']}{list(win)} (never loaded before); T1 released: {who} {res[who]}"))
+                                           f"{b.images[which % 2]['group']}{list(win)}{' through a pickled copy of the tree' if which > 1 else ''} (never loaded before); T1 released: {who} {res[who]}"))
                 if out["bad"]:
                     return out
     finally:
@@ -609,7 +613,7 @@ def body(chk):
     mids = [dict(level=("1.5", "1.1")[i % 2], seed=chk.seed + 340 + i) for i in range(2)]
     gcs = [dict(level=("1.5", "1.1")[i % 2], seed=chk.seed + 350 + i, fs=("local", "vtrace")[i % 2], threads=1 + i % 2, iterations=150 if nq else 1500) for i in range(2)]
     # line-grain schedules after histories of H selections (typical capacities of a bounded memo: powers of two)
-    lines_ = [dict(level=("1.5", "1.1")[i % 2], seed=chk.seed + 360 + i, H=H, dense=60 if nq else 400, sparse=6 if nq else 40, others=[1] if (nq and H != 64) else [1, 0])
+    lines_ = [dict(level=("1.5", "1.1")[i % 2], seed=chk.seed + 360 + i, H=H, dense=60 if nq else 400, sparse=6 if nq else 40, others=[1] if (nq and H != 64) else ([1, 0, 3, 2] if not nq else [1, 0, 3]))
               for i, H in enumerate((16, 64, 128) if nq else (8, 16, 32, 64, 100, 128, 256))]
     mixed = [("stall", t) for t in stalls] + [("crowd", t) for t in crowds] + [("gc", t) for t in gcs] + [("mid", t) for t in mids] + [("line", t) for t in lines_] + [("sched", t) for t in tasks]
     mixed_res = checklib.pmap(run_any, mixed, chk.scratch)
